@@ -173,6 +173,54 @@ def guard_of_site(body, site_bb, dom):
     return best
 
 
+def _array_len_of_ty(ty):
+    """`[T; N]` / `&[T; N]` -> 'N' (a literal or the name of a const parameter)"""
+    import re
+    m = re.search(r";\s*([A-Za-z0-9_:]+)\s*\]$", ty.strip())
+    return m.group(1) if m else None
+
+
+def len_mismatch(body, other, arr):
+    """None when the operand the counter is compared with is the length of `arr` (the const N of its type `[_; N]`, or `.len()` of
+    a reference to an array of that same N); otherwise a description of what it is"""
+    want = _array_len_of_ty(body.local_ty(arr))
+    if want is None:
+        return "an operand whose relation to the array type `%s` is unknown" % body.local_ty(arr)
+    if other["k"] == "const":
+        got = other.get("tyconst") or other.get("bits")
+        return None if str(got) == want else "the constant %s" % got
+    l = operand_local(other)
+    if l is None:
+        return "a projected place"
+    src = single_use_source(body, l)
+    defs = body.defs_of(src)
+    if len(defs) == 1 and defs[0][1] == "term" and defs[0][2].get("callee") \
+            and strip_generics(defs[0][2]["callee"]["path"]).endswith(("slice::<impl [T]>::len", "slice::len")):
+        a = operand_local(defs[0][2]["args"][0])
+        seen = set()
+        while a is not None and a not in seen:
+            seen.add(a)
+            n = _array_len_of_ty(body.local_ty(a))
+            if n is not None:
+                return None if n == want else "the length of a `%s`" % body.local_ty(a)
+            d = body.defs_of(a)
+            if len(d) != 1 or d[0][1] == "term":
+                break
+            rv = d[0][2]
+            nxt = None
+            if rv["k"] == "cast":
+                nxt = operand_local(rv["op"]) if "op" in rv else None
+            elif rv["k"] == "use":
+                nxt = operand_local(rv["op"])
+            elif rv["k"] == "ref" and not rv["place"]["p"]:
+                nxt = rv["place"]["l"]
+            a = nxt
+        return "the length of something that is not an array of the same type-level length"
+    if len(defs) == 1 and defs[0][1] != "term" and defs[0][2]["k"] == "use" and defs[0][2]["op"]["k"] == "const":
+        return len_mismatch(body, defs[0][2]["op"], arr)
+    return "a computed value (%s)" % (defs[0][2].get("k") if defs and defs[0][1] != "term" else "call result")
+
+
 def counter_defs(body, counter):
     """classify every definition of the counter: ('init', value) | ('inc', bb, idx, k-operand) | ('other', ...)"""
     out = []
@@ -244,15 +292,53 @@ def _before(dom, a, b):
     return a[0] in dom[b[0]]
 
 
+def _point_succ(body, succ, pt):
+    """successor program points of (bb, idx|'term') on the pruned CFG"""
+    bb, i = pt
+    if i == "term":
+        return [(b2, 0 if body.blocks[b2]["stmts"] else "term") for b2 in succ(bb)]
+    n = len(body.blocks[bb]["stmts"])
+    return [(bb, i + 1 if i + 1 < n else "term")]
+
+
+def _first_point(body, bb):
+    return (bb, 0 if body.blocks[bb]["stmts"] else "term")
+
+
+def path_exists(body, succ, reach, a, b, avoid=()):
+    """is there a way from just after point a to point b (arriving at it) that passes none of the `avoid` points?"""
+    avoid = set(avoid)
+    seen = set()
+    st = [q for q in _point_succ(body, succ, a)]
+    while st:
+        q = st.pop()
+        if q in seen or q[0] not in reach:
+            continue
+        seen.add(q)
+        if q == b:
+            return True
+        if q in avoid:
+            continue
+        st.extend(_point_succ(body, succ, q))
+    return False
+
+
+def _other_inc_between(body, succ, reach, P, inc, incs):
+    """some way from P to `inc` (without coming back to P) passes another increment of the counter"""
+    for d2 in incs:
+        if d2 != inc and d2 != P and path_exists(body, succ, reach, P, d2, avoid=[P, inc]) and path_exists(body, succ, reach, d2, inc, avoid=[P]):
+            return True
+    return False
+
+
 def store_covers(body, succ, dom, reach, site_bb, incs, P, sigma, inc):
     """the store `sigma`, whose index is the counter's value read at P, writes the slot that the increment `inc` passes:
     P precedes inc with no other increment in between, and every way from P through inc to the end of the iteration
     (back edge of the innermost enclosing loop, leaving that loop, or the assume_init site) executes sigma"""
     if not _before(dom, P, inc):
         return False
-    for d2 in incs:
-        if d2 != inc and _before(dom, P, d2) and _before(dom, d2, inc):
-            return False
+    if _other_inc_between(body, succ, reach, P, inc, incs):
+        return False
     if _before(dom, sigma, inc) and (_before(dom, P, sigma) or P == sigma):
         return True
     if sigma[0] == inc[0]:
@@ -275,6 +361,48 @@ def store_covers(body, succ, dom, reach, site_bb, incs, P, sigma, inc):
             return False                  # the next iteration starts, or the array is assumed initialised, without the store
         st.extend(succ(b))                # (a path that panics or returns never reaches the site)
     return True
+
+
+def _def_idx(body, local, d):
+    """statement index of a non-increment definition reported by counter_defs (which only carries the block)"""
+    for bb, i, rv in body.defs_of(local):
+        if bb == d[1] and not (i != "term" and rv["k"] == "binop"):
+            return i
+    return "term"
+
+
+def pigeonhole_covers(body, succ, dom, reach, counter, incs, inc, stores):
+    """counting argument for `counter += 1` at `inc` when the stores are not indexed by the counter itself:
+     (a) a store sigma = `array[j] = MaybeUninit::new(..)` precedes the increment on every path, no other increment of the counter
+         lies on any way from sigma to it, and every cycle through the increment passes sigma again: the counter never exceeds the
+         number of executed stores;
+     (b) j is the value a cursor had at a point P; once P has been reached the cursor is only ever advanced by positive constants,
+         and every cycle through P passes such an advance: no two executions of sigma write the same slot;
+     (c) the indexing is a checked array index (MIR `array[j]`), so every written slot exists.
+    With the site guarded by `counter == N` (N = the array's length) that is N different existing slots written: all of them.
+    Returns the store used, or None."""
+    for sb, si, root, rv, il in stores:
+        sigma = (sb, si)
+        if root == counter or sb not in reach or not is_maybeuninit_new(body, rv):
+            continue
+        if not _before(dom, sigma, inc) or _other_inc_between(body, succ, reach, sigma, inc, incs):
+            continue
+        if path_exists(body, succ, reach, inc, inc, avoid=[sigma]):
+            continue
+        P = read_point(body, il, root, sigma)
+        if P is None:
+            continue
+        defs = [d for d in counter_defs(body, root) if d[1] in reach]
+        # anything may set the cursor before the traversal starts, nothing but the advances may define it once P has been reached
+        if any(path_exists(body, succ, reach, P, (d[1], d[2] if d[0] == "inc" else _def_idx(body, root, d)), avoid=[]) for d in defs if d[0] != "inc"):
+            continue
+        adv = [(d[1], d[2]) for d in defs if d[0] == "inc" and d[3]["k"] == "const" and str(d[3].get("bits", "0")).isdigit() and int(d[3]["bits"]) > 0]
+        if not adv or len(adv) != len([d for d in defs if d[0] == "inc"]):
+            continue
+        if path_exists(body, succ, reach, P, P, avoid=adv):
+            continue
+        return sigma
+    return None
 
 
 def is_maybeuninit_new(body, rv):
@@ -307,8 +435,14 @@ def init_rule(body, site_bb, site_term):
                 "loop, or a skipped element, would leave unwritten slots)"], info
     counter, other = g
     info["counter"] = body.local_name(counter) or "_%d" % counter
+    info["len_operand"] = repr(other)[:300]
+    info["array_ty"] = body.local_ty(arr)
     info["array"] = body.local_name(arr) or "_%d" % arr
     info["fixed"] = {"_%d" % k: v for k, v in fixed.items()}
+    why = len_mismatch(body, other, arr)
+    if why:
+        problems.append("the guard compares `%s` with %s, which is not the length of the array (`%s`): with fewer counted slots than "
+                        "the array has, unwritten slots would be assumed initialised" % (info["counter"], why, info["array_ty"]))
     stores = stores_to(body, arr)
     n_inc = 0
     for d in counter_defs(body, counter):
@@ -330,6 +464,11 @@ def init_rule(body, site_bb, site_term):
                     P = read_point(body, s[4], counter, (s[0], s[1]))
                     if P is not None and store_covers(body, succ, dom, reach, site_bb, incs, P, (s[0], s[1]), (bb, idx)):
                         cover = True
+                if not cover:
+                    pg = pigeonhole_covers(body, succ, dom, reach, counter, incs, (bb, idx), stores)
+                    if pg is not None:
+                        cover = True
+                        info.setdefault("counting_argument", []).append("bb%d" % bb)
                 if not cover:
                     problems.append("`%s += 1` at bb%d: some path of the iteration passes this increment without executing a store "
                                     "`%s[%s] = MaybeUninit::new(..)` for the value `%s` had before it (an unwritten slot would be counted)" % (
